@@ -236,3 +236,50 @@ func VP_C07_cookie_isolation() {
 	vpAssert(tunB.RemoteAddr == wantIP, "tunnel-address-comes-from-its-own-token-only")
 	vpAssert(tunA.TargetServer == hostA && tunA.RemoteAddr == ipA, "earlier-tunnel-keeps-its-own-token-data")
 }
+
+
+//vp:property C02 C07 C09
+//vp:bounds two tunnels present, at the same time, two correctly signed and unexpired gateway cookies of the same user: one embeds an access token the identity provider honours (its answer is slow), the other an access token the provider refuses (a revoked session); the second is checked while the first waits for the provider
+//vp:assume as VP_C02_verify; cooperative schedule: the second check runs while the first waits for the identity provider
+//vp:reach both-judged
+func VP_C02_concurrent_presentations() {
+	vpResetJose()
+	vpSetKeys()
+	vpIdpByToken = map[string]bool{"honoured": true, "revoked": false}
+	vpIdpSlowToken = "honoured"
+	vpIdpShown = nil
+	vpIdpPerCall = true // a correctly signed, unexpired gateway cookie each time
+	defer func() { vpIdpByToken, vpIdpSlowToken, vpIdpPerCall = nil, "", false }()
+	describe := func(at string) {
+		vpParseCalls, vpSigAlgs, vpTokAlgs, vpClaimsKeyLog = 0, nil, nil, nil
+		vpTokClaimsMade = true
+		vpTokIssuer, vpTokSubject = "rdpgw", "u"
+		vpTokExp, vpTokNbf, vpTokIat = nil, nil, nil
+		vpTokCustom = customClaims{RemoteServer: "h", ClientIP: "a", AccessToken: at}
+		vpTokLacks = [3]bool{}
+	}
+	var okGood, okRevoked bool
+	done := make(chan bool, 1)
+	entered, otherDone := make(chan struct{}), make(chan struct{})
+	vpIdpSlowEntered, vpIdpOtherDone = entered, otherDone
+	go func() {
+		<-entered // the first presentation is waiting for the identity provider
+		defer close(otherDone)
+		describe("revoked")
+		id := identity.NewUser()
+		okRevoked, _ = CheckPAACookie(vpCtxWith(&protocol.Tunnel{User: id, RDGId: "conn-2"}, id), "cookie-revoked")
+		done <- true
+	}()
+	describe("honoured")
+	id := identity.NewUser()
+	okGood, _ = CheckPAACookie(vpCtxWith(&protocol.Tunnel{User: id, RDGId: "conn-1"}, id), "cookie-honoured")
+	<-done
+	vpReach("both-judged")
+	vpAssert(okGood, "the-cookie-whose-access-token-is-honoured-is-accepted")
+	vpAssert(!okRevoked, "a-cookie-whose-access-token-the-provider-refuses-is-refused-whatever-else-is-in-flight")
+	shownRevoked := false
+	for _, t := range vpIdpShown {
+		shownRevoked = shownRevoked || t == "revoked"
+	}
+	vpAssert(shownRevoked, "every-cookies-own-access-token-is-shown-to-the-provider")
+}
